@@ -2,6 +2,7 @@ package propeller
 
 import (
 	"errors"
+	"fmt"
 	"time"
 
 	"github.com/NethermindEth/juno/consensus/propeller/merkle"
@@ -63,9 +64,20 @@ type Unit struct {
 }
 
 func UnitFromProto(protoUnit *pb.PropellerUnit) (Unit, error) {
+	if len(protoUnit.Shards.GetShards()) == 0 {
+		return Unit{}, errors.New("unit has no shards")
+	}
+	if len(protoUnit.MerkleRoot.GetElements()) != len(MessageRoot{}) {
+		return Unit{}, fmt.Errorf(
+			"unit merkle root has %d bytes, expected %d",
+			len(protoUnit.MerkleRoot.GetElements()),
+			len(MessageRoot{}),
+		)
+	}
+
 	shards := make(ShardData, len(protoUnit.Shards.GetShards()))
 	for i, s := range protoUnit.Shards.GetShards() {
-		shards[i] = Shard(s.Data)
+		shards[i] = Shard(s.GetData())
 	}
 
 	// validate that all shard length is the same
